@@ -697,13 +697,7 @@ func c13R4(p *core.Program, r *core.Report) {
 				continue
 			}
 			// operand derives from Recv().Type()
-			recv := false
-			ast.Inspect(ta.X, func(m ast.Node) bool {
-				if cc, ok := m.(*ast.CallExpr); ok && core.CalleeName(info, cc) == "(*go/types.Signature).Recv" {
-					recv = true
-				}
-				return true
-			})
+			recv := derivesFromCall(info, f.Body, ta.X, "(*go/types.Signature).Recv", 0)
 			if recv && !fct.Val {
 				good = true
 			}
@@ -797,4 +791,34 @@ func constructionOnly(p *core.Program, f *core.Func, depth int) bool {
 		}
 	}
 	return sites > 0
+}
+
+// derivesFromCall: the expression contains a call of the named function, directly or through locals that are
+// defined once (`recv := sig.Recv(); recv.Type()`).
+func derivesFromCall(info *types.Info, body ast.Node, e ast.Expr, callee string, depth int) bool {
+	if depth > 8 {
+		return false
+	}
+	found := false
+	ast.Inspect(e, func(m ast.Node) bool {
+		if found {
+			return false
+		}
+		switch x := m.(type) {
+		case *ast.CallExpr:
+			if core.CalleeName(info, x) == callee {
+				found = true
+			}
+		case *ast.Ident:
+			if v, ok := info.ObjectOf(x).(*types.Var); ok && !v.IsField() {
+				if d, ok := core.SingleDef(info, body, v); ok && d.Rhs != nil && (d.Kind == "define" || d.Kind == "var") {
+					if derivesFromCall(info, body, d.Rhs, callee, depth+1) {
+						found = true
+					}
+				}
+			}
+		}
+		return !found
+	})
+	return found
 }
